@@ -305,6 +305,9 @@ static int ptr_sym(uintptr_t v)
 {
     int a; shim_blk *b;
     if (v == (uintptr_t)cb_clear) { KB_C('F'); return 1; }
+    if (v >= (uintptr_t)SP && v < (uintptr_t)(SP + NSP)) { size_t d = v - (uintptr_t)SP; KB_C('s'); KB_U(d / sizeof SP[0]); KB_C('+'); KB_U(d % sizeof SP[0]); return 1; }
+    if (v >= (uintptr_t)WP && v < (uintptr_t)(WP + NWP)) { size_t d = v - (uintptr_t)WP; KB_C('w'); KB_U(d / sizeof WP[0]); KB_C('+'); KB_U(d % sizeof WP[0]); return 1; }
+    if (v >= (uintptr_t)UP && v < (uintptr_t)(UP + NUP)) { size_t d = v - (uintptr_t)UP; KB_C('u'); KB_U(d / sizeof UP[0]); KB_C('+'); KB_U(d % sizeof UP[0]); return 1; }
     if (v >= (uintptr_t)cookies && v < (uintptr_t)(cookies + 4)) { KB_C('K'); KB_U((unsigned long)(v - (uintptr_t)cookies)); return 1; }
     if ((b = shim_find((const void *)v)) != NULL && b->tag >= 0 && b->tag < MAXA && cls_of[b->tag] >= 0) {
         a = b->tag; KB_C(b->p == AL[a].mem ? 'M' : 'B'); KB_U((unsigned)cls_of[a]); KB_C('+'); KB_U((unsigned long)(v - (uintptr_t)b->p)); return 1;
@@ -320,9 +323,12 @@ static void w_canon(void)
 #define CLS(a) do { if ((a) < 0) KB_C('-'); else { if (cls[a] < 0) cls[a] = ncls++; KB_U((unsigned)cls[a]); } } while (0)
 #define RAW(p) do { const void *q = (p); int r; if (!q) KB_C('0'); else { for (r = 0; r < nraw; r++) if (raw[r] == q) break; if (r == nraw) raw[nraw++] = q; KB_C('a' + r); } } while (0)
     if (!MODE) {
-        for (i = 0; i < NS; i++) { KB_C('S'); CLS(m_sp[i]); RAW(SP[i].data.ptr); KB_C(SP[i].data.self == (void *)&SP[i].data ? 's' : 'X'); }
-        for (i = 0; i < NW; i++) { KB_C('W'); CLS(m_wp[i]); RAW(WP[i].data.ptr); KB_C(WP[i].data.self == (void *)&WP[i].data ? 's' : 'X'); }
+        for (i = 0; i < NS; i++) { KB_C('S'); CLS(m_sp[i]); }
+        for (i = 0; i < NW; i++) { KB_C('W'); CLS(m_wp[i]); }
         memcpy(cls_of, cls, sizeof cls_of);
+        /* every byte of the pointer objects, members unnamed; addresses are named by allocation class / object index (ptr_sym) */
+        for (i = 0; i < NS; i++) { KB_C('<'); KB_MEM(&SP[i], sizeof SP[i], ptr_sym); }
+        for (i = 0; i < NW; i++) { KB_C('<'); KB_MEM(&WP[i], sizeof WP[i], ptr_sym); }
         for (k = 0; k < ncls; k++) {
             int a, bi;
             for (a = 0; a < MAXA; a++) if (cls[a] == k) {
@@ -334,8 +340,7 @@ static void w_canon(void)
         }
     } else {
         for (i = 0; i < NUP; i++) {
-            KB_C('U'); CLS(m_up[i]); RAW(UP[i].gp.ptr); KB_C(UP[i].gp.self == (void *)&UP[i].gp ? 's' : 'X'); KB_C(UP[i].clr.func ? 'c' : '-');
-            KB_C(UP[i].clr.priv == NULL ? '0' : UP[i].clr.priv == (void *)&cookies[0] ? 'x' : UP[i].clr.priv == (void *)&cookies[1] ? 'y' : '?');
+            KB_C('U'); CLS(m_up[i]); memcpy(cls_of, cls, sizeof cls_of); KB_C('<'); KB_MEM(&UP[i], sizeof UP[i], ptr_sym);
             if (m_up[i] >= 0) { KB_C(AL[m_up[i]].has_clr ? 'C' : 'n'); KB_U((unsigned)AL[m_up[i]].cookie); }
         }
     }
